@@ -145,3 +145,4 @@ def replay(ctx, verdict):
         print(open(out).read() if os.path.exists(out) else log[-1500:])
         return 0
     return _replay_before_late(ctx, verdict)
+MANIFEST = dict(MANIFEST, level_note=MANIFEST.get('level_note', '') + ' Connections attached to a session AFTER its teardown (outside the fixed connection set of the model) are exercised by harness/multiplex/c12_late_conn_test.go: each must be closed by its own receive loop once the peer ends it.')
